@@ -122,6 +122,7 @@ def check_C20(tier, seed):
         lines = [h_line(s, c) for s, c in cases]
         impl = common.run_harness("hostile", lines, shards=common.NCPU)
         model = common.run_model("hostile", [h_line(s, c, ftext) for s, c in cases])
+        common.kernel_crosscheck(rep, "hostile", [h_line(s, c, ftext) for s, c in cases], 150 if thorough else 50)
         sub = list(range(0, len(lines), 1 if thorough else 3))
         impl_dbg = common.run_harness("hostile", [lines[i] for i in sub], debug=True, shards=common.NCPU)
         # queued() under every sub-step placement of its two loads (hook H2 schedules of the queue check, <= 6 events):
